@@ -86,16 +86,16 @@ def run(ctx):
     for dd in ((16, 32) if ctx.thorough else (16,)):
         g2 = ctx.instance("G2_C31_D%d" % dd, "CacheImpl", GEN_W, dict(base, Fids=gfids, D=dd, MaxOps=3))
         h = ctx.generate(g2, workers=4, timeout=1500)
-        h = rng.sample(h, min(len(h), 1500 if ctx.thorough else 120))
+        h = rng.sample(h, min(len(h), 700 if ctx.thorough else 120))
         runs += [(dd, 2, x) for x in h]
     for dd in ((16, 32) if ctx.thorough else (32,)):
         ga = ctx.instance("GA_C31_D%d" % dd, "CacheImpl", GEN_ALIAS, dict(base, Fids=gfids, D=dd, MaxOps=3))
         h = ctx.generate(ga, workers=4, timeout=1500)
-        h = rng.sample(h, min(len(h), 600 if ctx.thorough else 60))
+        h = rng.sample(h, min(len(h), 300 if ctx.thorough else 60))
         runs += [(dd, 2, x) for x in h]
     g3 = ctx.instance("G3_C31", "CacheImpl", GEN_ALL, dict(base, D=32, MaxOps=14))
-    runs += [(32, 2, x) for x in ctx.generate(g3, simulate=400 if ctx.thorough else 40, depth=15)]
-    runs += random_scripts(rng, 1500 if ctx.thorough else 120, 30)
+    runs += [(32, 2, x) for x in ctx.generate(g3, simulate=300 if ctx.thorough else 40, depth=15)]
+    runs += random_scripts(rng, 800 if ctx.thorough else 120, 30)
 
     script = os.path.join(ctx.out, "script.ndjson")
     if ctx.replay:
